@@ -271,6 +271,7 @@ func ReplayHistory(tw *TraceWriter, id int, h []Action) {
 		}
 		return c
 	}
+	buildPanic := ""
 	body := []*Node{}
 	for _, a := range h[1:] {
 		switch a.A {
@@ -307,8 +308,14 @@ func ReplayHistory(tw *TraceWriter, id int, h []Action) {
 			tw.Emit(Rec{"ev": "Preamble", "node": CommentNode(a.N), "predoc": predoc})
 		case "Add":
 			Syms([]*Node{a.Tree}, syms)
-			fA.Add(prer(bA.Code(a.Tree)))
-			fB.Add(prer(bB.Code(a.Tree)))
+			// (a DSL call that panics while the tree is being BUILT is an observation as well: the next render reports it)
+			if r := safely(func() ([]byte, error) {
+				fA.Add(prer(bA.Code(a.Tree)))
+				fB.Add(prer(bB.Code(a.Tree)))
+				return nil, nil
+			}); r.status == "panic" {
+				buildPanic = r.msg
+			}
 			body = append(body, a.Tree)
 			if h[0].SrcInfo != nil {
 				tw.Emit(Rec{"ev": "Add", "tree": Rec{"k": "nil"}}) // the observed body travels with the Render event
@@ -319,6 +326,9 @@ func ReplayHistory(tw *TraceWriter, id int, h []Action) {
 		case "Render":
 			rendering = true
 			rA := renderFile(fA)
+			if buildPanic != "" {
+				rA = renderResult{status: "panic", msg: "while building: " + buildPanic}
+			}
 			if id%4 == 2 && h[0].Variant == nil {
 				// the other way to the same output: the File has just been rendered, now it is SAVED and the saved file is the
 				// observation (Save must give what Render gives, whatever was rendered with the File before)
